@@ -374,17 +374,55 @@ def run(ctx):
 
     # ------------------------------------------------------------------
     # A. save -> from_header / from_stream / from_zip
-    def load_all(path_hdr):
-        """the three loaders on the same pair of files"""
-        out = {}
-        out["from_header"] = hygrid.Grid.from_header(path_hdr)
-        with open(path_hdr, "r") as fh, open(str(path_hdr)[:-3] + "bil", "rb") as fd:
-            out["from_stream"] = hygrid.Grid.from_stream(fh, fd)
-        zp = work / "z.zip"
-        with zipfile.ZipFile(zp, "w") as z:
-            z.write(path_hdr, "sub/dir/" + Path(path_hdr).name)
-            z.write(str(path_hdr)[:-3] + "bil", "sub/dir/" + Path(path_hdr).stem + ".bil")
-        out["from_zip"] = hygrid.Grid.from_zip(zp, "sub/dir/" + Path(path_hdr).name)
+    def load_all(path_hdr, with_data=True):
+        """every loading path on the same pair of files (header path_hdr, data beside it with the
+        extension bil; with_data=False: there is no data file, the loaders return the header's grid).
+        Returns [(function, how, grid or the exception raised)]."""
+        path_hdr = Path(path_hdr)
+        path_bil = path_hdr.with_suffix(".bil")
+        if not with_data and path_bil.exists():
+            path_bil.unlink()
+        hname, bname = path_hdr.name, path_bil.name
+        zsub, zroot = work / "z_sub.zip", work / "z_root.zip"
+        with zipfile.ZipFile(zsub, "w", zipfile.ZIP_STORED) as z:
+            z.write(path_hdr, "sub/dir/" + hname)
+            if with_data:
+                z.write(path_bil, "sub/dir/" + bname)
+        with zipfile.ZipFile(zroot, "w", zipfile.ZIP_DEFLATED) as z:
+            z.writestr("other.hdr", "NROWS 1\nNCOLS 1\n")     # an unrelated member
+            if with_data:
+                z.write(path_bil, bname)
+            z.write(path_hdr, hname)
+
+        def stream_files():
+            with open(path_hdr, "r") as fh:
+                if not with_data:
+                    return hygrid.Grid.from_stream(fh)
+                with open(path_bil, "rb") as fd:
+                    return hygrid.Grid.from_stream(fh, fd)
+
+        def stream_stringio():
+            fh = io.StringIO(path_hdr.read_text())
+            if not with_data:
+                return hygrid.Grid.from_stream(fh)
+            with open(path_bil, "rb") as fd:
+                return hygrid.Grid.from_stream(fh, fd)
+        ways = [("from_header", "path of the header file (pathlib.Path)", lambda: hygrid.Grid.from_header(path_hdr)),
+                ("from_header", "path of the data file (str)", lambda: hygrid.Grid.from_header(str(path_bil))),
+                ("from_stream", "text file and binary file objects", stream_files),
+                ("from_stream", "StringIO header and binary file object", stream_stringio),
+                ("from_zip", "members in a sub-directory, stored, header name",
+                 lambda: hygrid.Grid.from_zip(zsub, "sub/dir/" + hname)),
+                ("from_zip", "members at the root, deflated, data file name",
+                 lambda: hygrid.Grid.from_zip(str(zroot), bname))]
+        out = []
+        for fn, how, thunk in ways:
+            try:
+                with np.errstate(all="ignore"):
+                    out.append((fn, how, thunk()))
+            except Exception as e:
+                out.append((fn, how, e))
+            ctx.count(("loading path", fn, how, with_data))
         return out
 
     def grid_spec(g, vals):
@@ -420,23 +458,70 @@ def run(ctx):
         add(f"IOSave {m.term()} {prt_term(m.floats())} {cs(text)}", dict(base, header=text), ("save",) + sig_dt)
         add(f"IOTofile {m.dtype.itemsize}%Z {cm.coq_zlist(patterns(vals))} {cm.coq_zlist(list(raw))}",
             dict(base, raw=list(raw)[:64]), ("tofile", m.dtype.name))
-        try:
-            loaded = load_all(ph)
-        except Exception as e:       # a saved grid must load
+        loaded = load_all(ph)
+        errs = [(fn, how, e) for fn, how, e in loaded if isinstance(e, Exception)]
+        if errs:                     # a saved grid must load, through every loading path
+            fn, how, e = errs[0]
             i = add(f"IOLoad {cs(stem)} {cs(text)} {rdt_term(text.split())} (Some {cm.coq_zlist(list(raw))}) None",
-                    dict(base, header=text, error=repr(e)), ("load-saved-error",))
-            fail(i, "C13/save-load/raises", f"a grid written by Grid.save cannot be loaded back: {e!r}")
+                    dict(base, header=text, error=repr(e), loader=[fn, how]), ("load-saved-error",))
+            fail(i, "C13/save-load/raises", f"a grid written by Grid.save cannot be loaded back by Grid.{fn} "
+                                            f"({how}): {e!r}")
             return
-        g2 = loaded["from_header"]
+        g2 = loaded[0][2]
         m2 = Meta.of(g2)
         i = add(f"IOLoad {cs(stem)} {cs(text)} {rdt_term(text.split())} (Some {cm.coq_zlist(list(raw))}) "
                 f"(Some ({m2.term()}, Some {cm.coq_zlist(patterns(g2.data))}))",
                 dict(base, header=text, loaded=m2.js()), ("load-saved",) + sig_dt)
-        for fn, gl in loaded.items():
-            for mode, what in compare_meta(g, gl, f"Grid.save then Grid.{fn}") + \
-                    compare_values(vals, gl, f"Grid.save then Grid.{fn}"):
-                fail(i, f"C13/{fn}/{mode}", what)
+        for fn, how, gl in loaded:
+            what = f"Grid.save then Grid.{fn} [{how}]"
+            for mode, msg in compare_meta(g, gl, what) + compare_values(vals, gl, what):
+                fail(i, f"C13/{fn}/{mode}", msg, dict(replays[i], loader=[fn, how]))
             ctx.count((fn, m.dtype.name))
+        # second generation: a grid that comes out of a loader (not out of the constructor) is saved and
+        # loaded again, through every path; it is still the grid saved first
+        fn1, how1, g1 = loaded[rng.randrange(len(loaded))]
+        resave(i, g1, g, vals, f"Grid.save then Grid.{fn1} [{how1}] then Grid.save", [fn1, how1])
+        # the same grid held as big-endian items (the library then writes BYTEORDER M itself): when the
+        # type setter and Grid.save accept it, what they wrote loads back as the same grid
+        if m.dtype.itemsize > 1 and rng.random() < 0.5:
+            gb, _ = build_grid(grid_spec(g, vals))
+            pbb = work / f"{stem}_be.bil"
+            try:
+                gb.dtype = m.dtype.newbyteorder(">")
+                gb.save(pbb)
+            except Exception:
+                ctx.count(("big-endian items held by the grid: not accepted",))
+                return
+            textb = pbb.with_suffix(".hdr").read_text()
+            ctx.count(("big-endian items held by the grid", m.dtype.name,
+                       bool(re.search(r"(?mi)^BYTEORDER +M *$", textb))))
+            for fn, how, gl in load_all(pbb.with_suffix(".hdr")):
+                what = f"big-endian item type set on the grid, Grid.save, then Grid.{fn} [{how}]"
+                rp = dict(replays[i], loader=[fn, how], big_endian_items=True, header=textb,
+                          raw=list(pbb.read_bytes())[:64])
+                if isinstance(gl, Exception):
+                    fail(i, "C13/save-load/raises", f"{what}: {gl!r}", rp)
+                    continue
+                for mode, msg in compare_meta(g, gl, what) + compare_values(vals, gl, what):
+                    fail(i, f"C13/{fn}/{mode}", msg, rp)
+
+    def resave(i, g1, ref, vals, what1, loader1):
+        """g1 was loaded from files and has to be the grid ref (cells vals): save it, load it through every path"""
+        pb2 = work / "again.bil"
+        try:
+            g1.save(pb2)
+        except Exception as e:
+            fail(i, "C13/save-load/raises", f"{what1} raises {e!r}", dict(replays[i], loader=loader1))
+            return
+        for fn, how, gl in load_all(pb2.with_suffix(".hdr")):
+            what = f"{what1} then Grid.{fn} [{how}]"
+            rp = dict(replays[i], loader=loader1, second_loader=[fn, how], second_header=pb2.with_suffix(".hdr").read_text())
+            if isinstance(gl, Exception):
+                fail(i, "C13/save-load/raises", f"{what}: {gl!r}", rp)
+                continue
+            for mode, msg in compare_meta(ref, gl, what) + compare_values(vals, gl, what):
+                fail(i, f"C13/{fn}/{mode}", msg, rp)
+        ctx.count(("second generation", np.dtype(ref.dtype).name))
 
     ngrids = ctx.scale(70, 900)
     for k in range(ngrids):
@@ -582,45 +667,122 @@ def run(ctx):
         text, raw, info = header_case()
         run_header(text, raw, rng.choice(["no_name", "fdtest", "Tile_3"]), info, "random hand-written header")
 
-    # big-endian and little-endian rasters written by hand: the loaded values are the file's
-    def case_raster(dt, bo, nrows, ncols, pats, nd, tag):
+    # big-endian and little-endian rasters written by hand (files produced elsewhere), read through EVERY
+    # loading path: the loaded grid has the header's shape, georeferencing, type and no-data value and the
+    # file's items decoded in the header's byte order; saved again and reloaded it is still that grid
+    def raster_header(dt, bo, nrows, ncols, geo, nd, style):
+        """header of a raster; style = (key case, field width, lower-case tokens, no-data key, line order seed)"""
+        kcase, width, lowtok, ndkey, oseed = style
+        pt = {"i": "SIGNEDINT", "u": "UNSIGNEDINT", "f": "FLOAT"}[dt.kind]
+        botok = bo
+        if lowtok:
+            pt, botok = pt.lower(), bo.lower()
+        csz, xll, yll = geo
+        kv = [("NROWS", nrows), ("NCOLS", ncols), ("NBITS", 8 * dt.itemsize), ("PIXELTYPE", pt), ("BYTEORDER", botok),
+              ("XLLCORNER", repr(float(xll))), ("YLLCORNER", repr(float(yll))), ("CELLSIZE", repr(float(csz))),
+              (ndkey, repr(nd))]
+        if oseed is not None:
+            import random
+            random.Random(oseed).shuffle(kv)
+        return "".join(f"{(k.lower() if kcase == 'lower' else k):<{width}} {v}\n" for k, v in kv)
+
+    PLAIN = ("upper", 1, False, "NODATA_VALUE", None)
+
+    def case_raster(dt, bo, nrows, ncols, pats, nd, tag, geo=(0.25, 1.5, -2.0), style=PLAIN):
         dt = np.dtype(dt)
+        geo = tuple(float(x) for x in geo)
         vals = np.array(pats, dtype=np.dtype(f"u{dt.itemsize}")).view(dt)
         raw = vals.astype(dt.newbyteorder(">" if bo == "M" else "<")).tobytes()
         pt = {"i": "SIGNEDINT", "u": "UNSIGNEDINT", "f": "FLOAT"}[dt.kind]
-        text = (f"NROWS {nrows}\nNCOLS {ncols}\nNBITS {8 * dt.itemsize}\nPIXELTYPE {pt}\nBYTEORDER {bo}\n"
-                f"XLLCORNER 1.5\nYLLCORNER -2.0\nCELLSIZE 0.25\nNODATA_VALUE {nd!r}\n")
+        text = raster_header(dt, bo, nrows, ncols, geo, nd, style)
         i, g = run_header(text, raw, "no_name", (nrows, ncols, dt, bo, pt, 8 * dt.itemsize), tag,
                           extra={"kind": "raster", "dtype": dt.name, "byteorder": bo, "nrows": nrows, "ncols": ncols,
-                                 "patterns": [int(x) for x in pats], "nodata": nd})
+                                 "patterns": [int(x) for x in pats], "nodata": nd, "geo": list(geo),
+                                 "style": list(style)})
         # oracle, independent of numpy's decoding: items decoded with int.from_bytes
         want = [int.from_bytes(raw[j * dt.itemsize:(j + 1) * dt.itemsize], "big" if bo == "M" else "little")
                 for j in range(nrows * ncols)]
+        other = [int.from_bytes(raw[j * dt.itemsize:(j + 1) * dt.itemsize], "little" if bo == "M" else "big")
+                 for j in range(nrows * ncols)]
         ctx.count(("raster", dt.name, bo))
-        if g is None:
-            fail(i, "C13/from_stream/raises", f"valid {dt.name} raster with BYTEORDER {bo} and NODATA_VALUE {nd!r} rejected")
-            return
-        got = patterns(g.data)
-        if np.dtype(g.dtype) != dt or g.data.dtype != dt:
-            fail(i, "C13/from_stream/dtype", f"NBITS {8 * dt.itemsize} PIXELTYPE {pt} BYTEORDER {bo} "
-                                             f"loaded as {g.data.dtype}")
-        elif got != want:
-            j = next(j for j in range(len(want)) if got[j] != want[j])
-            mode = "big-endian-decoded-little-endian" if bo == "M" else "values"
-            fail(i, f"C13/from_stream/{mode}",
-                 f"{dt.name} raster with BYTEORDER {bo}: item {j} has bytes "
-                 f"{list(raw[j * dt.itemsize:(j + 1) * dt.itemsize])} but loads as "
-                 f"{g.data.ravel()[j]!r} (expected {vals.ravel()[j]!r})")
-        ndg = g.nodata
-        if not (same_float(float(ndg), float(nd)) and (dt.kind == "f" or int(ndg) == nd)):
-            fail(i, "C13/from_stream/nodata", f"NODATA_VALUE {nd!r} of a {dt.name} header loaded as {ndg!r}")
 
+        def judge(fn, how, g, data=True):
+            """g = what the loader returned (or the exception it raised) for this raster"""
+            rp = replays[i] if how is None else dict(replays[i], loader=[fn, how], data_file=data)
+            via = f"Grid.{fn}" + ("" if how is None else f" [{how}]") + ("" if data else ", header without data file")
+            if g is None or isinstance(g, Exception):
+                fail(i, f"C13/{fn}/raises", f"valid {dt.name} raster with BYTEORDER {bo} and NODATA_VALUE {nd!r} "
+                                            f"rejected by {via}" + ("" if g is None else f": {g!r}"), rp)
+                return False
+            ok = True
+            if np.dtype(g.dtype) != dt or g.data.dtype != dt:
+                fail(i, f"C13/{fn}/dtype", f"NBITS {8 * dt.itemsize} PIXELTYPE {pt} BYTEORDER {bo} "
+                                           f"loaded as {g.data.dtype} by {via}", rp)
+                ok = False
+            elif data:
+                got = patterns(g.data)
+                if got != want:
+                    j = next((j for j in range(min(len(want), len(got))) if got[j] != want[j]), 0)
+                    if how is None:
+                        mode = "big-endian-decoded-little-endian" if bo == "M" else "values"
+                    else:
+                        mode = "values" if got != other else \
+                            ("big-endian-decoded-little-endian" if bo == "M" else "little-endian-decoded-big-endian")
+                    fail(i, f"C13/{fn}/{mode}",
+                         f"{dt.name} raster with BYTEORDER {bo} read by {via}: item {j} has bytes "
+                         f"{list(raw[j * dt.itemsize:(j + 1) * dt.itemsize])} but loads as "
+                         f"{g.data.ravel()[j] if g.data.size > j else None!r} (expected {vals.ravel()[j]!r})", rp)
+                    ok = False
+            ndg = g.nodata
+            if not (same_float(float(ndg), float(nd)) and (dt.kind == "f" or int(ndg) == nd)):
+                fail(i, f"C13/{fn}/nodata", f"NODATA_VALUE {nd!r} of a {dt.name} header loaded as {ndg!r} by {via}", rp)
+                ok = False
+            if how is not None:
+                if (int(g.nrows), int(g.ncols)) != (nrows, ncols) or g.data.shape != (nrows, ncols):
+                    fail(i, f"C13/{fn}/shape", f"NROWS {nrows} NCOLS {ncols} loaded as {(g.nrows, g.ncols)} "
+                                               f"(data {g.data.shape}) by {via}", rp)
+                    ok = False
+                for att, x in zip(("cellsize", "xllcorner", "yllcorner"), geo):
+                    if float(getattr(g, att)) != x:
+                        fail(i, f"C13/{fn}/georef", f"{att.upper()} {x!r} loaded as {float(getattr(g, att))!r} by {via}", rp)
+                        ok = False
+                        break
+            return ok
+
+        if not judge("from_stream", None, g):
+            return
+        # the same pair of files through every loading path
+        stem = rng.choice(["hand", "Tile_3", "r.1"])
+        ph = work / f"{stem}.hdr"
+        ph.write_text(text)
+        ph.with_suffix(".bil").write_bytes(raw)
+        loaded = load_all(ph)
+        good = [(fn, how, gl) for fn, how, gl in loaded if judge(fn, how, gl)]
+        # second generation: the loaded grid written by Grid.save and loaded again is still the raster
+        if good:
+            fn1, how1, g1 = good[rng.randrange(len(good))]
+            ref = hygrid.Grid("ref", ncols, nrows, cellsize=geo[0], xllcorner=geo[1], yllcorner=geo[2], dtype=dt.type,
+                              nodata=nd)
+            resave(i, g1, ref, vals.reshape(nrows, ncols).copy(),
+                   f"{dt.name} raster with BYTEORDER {bo} read by Grid.{fn1} [{how1}] then Grid.save", [fn1, how1])
+        # header alone (no data file): same shape, georeferencing, type and no-data value
+        for fn, how, gl in load_all(ph, with_data=False):
+            judge(fn, how, gl, data=False)
+
+    STYLES = [PLAIN, ("upper", 14, False, "NODATA_VALUE", None)]
     for k in range(ctx.scale(44, 440)):
         dt = np.dtype(DTYPES[k % len(DTYPES)])
         for bo in ("I", "M"):
             nrows, ncols = rng.randint(1, 3), rng.randint(1, 3)
+            if rng.random() < 0.4:
+                geo, style = (0.25, 1.5, -2.0), rng.choice(STYLES)
+            else:
+                geo = (rand_double(rng, 0.5), rand_double(rng, 0.5), rand_double(rng, 0.5))
+                style = (rng.choice(["upper", "upper", "lower"]), rng.choice([1, 14, 14, 22, rng.randint(1, 30)]),
+                         rng.random() < 0.3, rng.choice(["NODATA_VALUE", "NODATA_VALUE", "NODATA"]),
+                         rng.choice([None, rng.randrange(10 ** 6)]))
             case_raster(dt, bo, nrows, ncols, patterns(rand_values(rng, dt, nrows * ncols)), rand_nodata(rng, dt),
-                        "hand-written raster, byte order " + bo)
+                        "hand-written raster, byte order " + bo, geo, style)
 
     # ------------------------------------------------------------------
     # pixel type expression
@@ -907,7 +1069,8 @@ def run(ctx):
             case_save(g, vals, tag)
         elif kind == "raster":
             case_raster(spec["dtype"], spec["byteorder"], spec["nrows"], spec["ncols"], spec["patterns"],
-                        spec["nodata"], tag)
+                        spec["nodata"], tag, tuple(spec.get("geo", (0.25, 1.5, -2.0))),
+                        tuple(spec.get("style", PLAIN)))
         elif kind == "clip":
             g, vals = build_grid(spec)
             case_clip(g, vals, tuple(spec["box"]), tag)
